@@ -33,8 +33,8 @@ pub mod nom {
         pub fn to_string(&self) -> String { unimplemented!() }
     }
     pub type IResult<I, O> = Result<(I, O), Err<error::Error<I>>>;
-    pub mod multi { pub use crate::nom_c::count; }
-    pub mod combinator { pub use crate::nom_c::map; }
+    pub mod multi { pub use crate::nom_c::count; pub use crate::nom_c::many0; }
+    pub mod combinator { pub use crate::nom_c::map; pub use crate::nom_c::cond; pub use crate::nom_c::complete; }
 }
 pub use nom::IResult;
 pub use nom::Err as NomErr;
@@ -88,6 +88,9 @@ pub proof fn lemma_track(orig: Seq<u8>, off: int, p: Seq<u8>, n: Seq<u8>)
 // ---- std specs missing from vstd ----------------------------------------------
 pub assume_specification<T: Clone> [<[T]>::to_vec] (s: &[T]) -> (r: Vec<T>)
     ensures r@.len() == s@.len(), forall|i: int| 0 <= i < s@.len() ==> cloned(s@[i], #[trigger] r@[i]);
+
+pub assume_specification [u16::overflowing_sub] (a: u16, b: u16) -> (r: (u16, bool))
+    ensures r.0 as int == (if a >= b { a - b } else { a - b + 65536 }), r.1 == (a < b);
 
 pub broadcast proof fn lemma_cloned_u8(a: u8, b: u8) requires #[trigger] cloned(a, b) ensures a == b {}
 
